@@ -61,7 +61,7 @@ type translatedReader struct {
 func (r translatedReader) Token() (xml.Token, error) {
 	tok, err := r.Decoder.Token()
 	if start, ok := tok.(xml.StartElement); ok {
-		attrs := start.Attr[:0]
+		attrs := make([]xml.Attr, 0, len(start.Attr))
 		for _, attr := range start.Attr {
 			if !isNSDecl(attr) {
 				attrs = append(attrs, attr)
